@@ -45,6 +45,14 @@ BUILT = {
          "tree, TLC; a reference Python grammar in TLA+ (design-level comparison) is not part of this check yet; "
          "failing strings are attributed to listed operator-pair patterns",
          "TLC-generated token strings, recorded parser/importer trees and CPython values, TLC-judged by evaluation"),
+ "C13": ("TLC enumerates (tree, listed-variable tuple) pairs over the Python-expressible fragment; the real compile(), "
+         "its pickle round trip, to_python_ast + compile/eval, to_evaluatable_python_function + exec, and the from-AST "
+         "importer are run on each and TLC judges every recorded value against Eval in 6 environments (value or "
+         "arithmetic exception class) and the recorded parameter order against 'listed first, rest by name'.",
+         "trusted: PyNum/Eval as the evaluator's meaning (bound to the real evaluator by C02), CPython executing the "
+         "generated code, TLC; logical operators only over boolean operands; paths are excused only for node kinds "
+         "they document as unsupported (NotImplementedError on Comparison/Min/Max/CSE in to-AST)",
+         "TLC-generated trees x argument lists, generated code executed, TLC-judged against the denotation"),
 }
 
 REASON_NOT_YET = "check not built yet in this round (planned, see DESIGN.md section 13)"
